@@ -8,7 +8,6 @@ import (
 	"os"
 	"os/exec"
 	"path/filepath"
-	"sort"
 	"strconv"
 	"strings"
 	"sync/atomic"
@@ -17,7 +16,6 @@ import (
 	"github.com/honeycombio/refinery/config"
 	kit "github.com/honeycombio/refinery/internal/verifkit"
 	"github.com/honeycombio/refinery/sample"
-	"github.com/honeycombio/refinery/types"
 )
 
 // ---------------------------------------------------------------- metadata (the real rulesMeta.yaml)
@@ -100,7 +98,6 @@ var fltMenu = []int{0, 500, 1000, 1001, -1, -500, 1500, 250}
 var durMenu = []int64{0, 1, 1000, 999999, 1000000, 1000001, 1000000000, 30000000000, 15000000000, 3600000000000}
 var negDurMenu = []int64{-1, -999999, -1000000, -1000000000, -300000000000}
 var nameMenu = []string{"", "a", "b", "root.a", "root.", "?.NUM_DESCENDANTS", "?.", "r", "?", "http.status", "x y", "root"}
-var opMenu = []string{"=", "!=", ">", "exists", "not-exists", "contains", "starts-with", "matches", "in", "not-in", "has-root-span", "bogus-op"}
 
 func genNames(r *kit.Rng) val {
 	switch r.Pick(10, 25, 25, 10, 8, 5, 5, 4, 4, 4) {
@@ -560,14 +557,3 @@ func rulesConfigOf(cfg config.Config) (*config.RulesBasedSamplerConfig, bool) {
 	rb, ok := c.(*config.RulesBasedSamplerConfig)
 	return rb, ok && rb != nil
 }
-
-func mkTraceSorted(m map[string]any) []string {
-	ks := make([]string, 0, len(m))
-	for k := range m {
-		ks = append(ks, k)
-	}
-	sort.Strings(ks)
-	return ks
-}
-
-var _ = types.RouterTypeIncoming
